@@ -27,11 +27,36 @@ def is_generated(frame):
 ENDS = (E1, E2, EnterFail, ExitFail)
 
 
+class ObserverBug(BaseException):
+    """an exception escaped from the monitor itself (never to be mistaken for program behaviour)"""
+
+
+def _guard(run, fn):
+    def guarded(*a):
+        try:
+            return fn(*a)
+        except BaseException as ex:
+            if getattr(run, "observer_error", None) is None:
+                import traceback
+                run.observer_error = (ex, traceback.format_exc())
+            raise ObserverBug(repr(ex))
+    return guarded
+
+
+def _reraise_observer_error(run):
+    err = getattr(run, "observer_error", None)
+    if err is not None:
+        sys.stderr.write(err[1])
+        raise ObserverBug(repr(err[0]))
+
+
 def drive_suspended(code, kind, seed, observe, run=None, max_obs=80, root="f0"):
     """Run f0 of *code*; after every suspension call observe(run, x, value, info) (if given).
     Returns the run (run.trace holds the behavioural trace, run.end the way it ended)."""
     if run is None:
         run = Run(seed, "suspended")
+    if observe is not None:
+        observe = _guard(run, observe)
     ns = run.namespace()
     ns["__name__"] = "vgen"
     exec(code, ns)
@@ -136,13 +161,16 @@ def drive_suspended(code, kind, seed, observe, run=None, max_obs=80, root="f0"):
     run.end = end
     run.trace.append(("end",) + tuple(end or ()))
     run.nobs = nobs
+    _reraise_observer_error(run)
     return run
 
 
 def drive_running(code, kind, seed, probe_cb, run=None):
     if run is None:
         run = Run(seed, "running")
-    run.probe_cb = (lambda tag: probe_cb(run, tag)) if probe_cb is not None else None
+    if probe_cb is not None:
+        gcb = _guard(run, probe_cb)
+        run.probe_cb = lambda tag: gcb(run, tag)
     if probe_cb is None:
         # managers consult probe_cb to decide not to suspend; keep that behaviour in twin runs
         run.probe_cb = lambda tag: None
@@ -195,4 +223,5 @@ def drive_running(code, kind, seed, probe_cb, run=None):
         end = ("othererror", repr(ex)[:100])
     run.end = end
     run.trace.append(("end",) + tuple(end or ()))
+    _reraise_observer_error(run)
     return run
